@@ -1,6 +1,7 @@
 package main
 
 import (
+	"go/token"
 	"fmt"
 	"go/constant"
 	"go/types"
@@ -367,6 +368,11 @@ func c17r3(w *World, rr *RuleRun) {
 			}
 		}
 	}
+	if !cidrForm && w.netsLoopForm(iln, []string{"classA", "classB", "classC"}) {
+		// table-driven form: a loop over a local array holding exactly the three nets that returns
+		// true on the first Contains(ip) and runs over every element otherwise
+		cidrForm = true
+	}
 	if cidrForm {
 		okNets := nets["classA"] == "10.0.0.0/8" && nets["classB"] == "172.16.0.0/12" && nets["classC"] == "192.168.0.0/16"
 		rr.Oblige(shortFuncName(iln), "not-local ⇒ outside 10/8, 172.16/12 and 192.168/16", w.P.Pos(iln.Pos()), okNets, fmt.Sprintf("nets %v", nets))
@@ -569,4 +575,112 @@ func (w *World) checkOctetForm(rr *RuleRun, iln *ssa.Function) {
 		rr.Oblige(shortFuncName(iln), fmt.Sprintf("not-local case %d excludes 192.168/16", i+1), w.P.Pos(iln.Pos()), ok192, facts)
 	}
 	_ = types.Typ
+}
+
+// netsLoopForm: fn ranges over a local array literal whose elements are the named globals, calls
+// Contains(ip) on the element in the loop, returns true when it holds, and the range covers the
+// whole array.
+func (w *World) netsLoopForm(fn *ssa.Function, globals []string) bool {
+	var arr *ssa.Alloc
+	have := map[string]bool{}
+	eachInstr([]*ssa.Function{fn}, func(_ *ssa.Function, ins ssa.Instruction) {
+		st, ok := ins.(*ssa.Store)
+		if !ok {
+			return
+		}
+		ia, ok := st.Addr.(*ssa.IndexAddr)
+		if !ok {
+			return
+		}
+		al, ok := ia.X.(*ssa.Alloc)
+		if !ok {
+			return
+		}
+		if _, isArr := al.Type().Underlying().(*types.Pointer).Elem().Underlying().(*types.Array); !isArr {
+			return
+		}
+		if _, isConst := ia.Index.(*ssa.Const); !isConst {
+			return
+		}
+		v := w.TS.Of(st.Val)
+		for _, g := range globals {
+			if v.Op == OpGlobal && v.Name == g || (v.Op == OpDeref && len(v.Args) == 1 && v.Args[0].Op == OpGlobal && v.Args[0].Name == g) {
+				have[g] = true
+				arr = al
+			}
+		}
+	})
+	if arr == nil {
+		return false
+	}
+	for _, g := range globals {
+		if !have[g] {
+			return false
+		}
+	}
+	n, _ := arrayLen(arr.Type().Underlying().(*types.Pointer).Elem())
+	if int(n) != len(globals) {
+		return false
+	}
+	// the loop: an IndexAddr on the array with a range index covering it, whose loaded element is the
+	// receiver of Contains; the true branch of that call returns true
+	okLoop := false
+	eachInstr([]*ssa.Function{fn}, func(_ *ssa.Function, ins ssa.Instruction) {
+		c := callInstrCommon(ins)
+		if c == nil || c.IsInvoke() || c.StaticCallee() == nil || c.StaticCallee().Name() != "Contains" || len(c.Args) != 2 {
+			return
+		}
+		var idx ssa.Value
+		switch x := c.Args[0].(type) {
+		case *ssa.UnOp: // *(&arr[i])
+			if ia, ok := x.X.(*ssa.IndexAddr); ok && ia.X == ssa.Value(arr) {
+				idx = ia.Index
+			}
+		case *ssa.Index: // (*arr)[i]
+			if ld, ok := x.X.(*ssa.UnOp); ok && ld.X == ssa.Value(arr) {
+				idx = x.Index
+			}
+		}
+		if idx == nil {
+			return
+		}
+		covers := false
+		if ln, isRange := rangeIndexOver(idx); isRange && ln == n {
+			covers = true
+		}
+		if bo, ok := idx.(*ssa.BinOp); ok && bo.Op == token.ADD && bo.Referrers() != nil {
+			// rotated range loop: i = phi(-1, i) + 1, tested i < n
+			if ph, ok := bo.X.(*ssa.Phi); ok && len(ph.Edges) == 2 {
+				start, isC := ConstInt(ph.Edges[0])
+				one, isOne := ConstInt(bo.Y)
+				if isC && start == -1 && isOne && one == 1 && ph.Edges[1] == ssa.Value(bo) {
+					for _, r := range *bo.Referrers() {
+						if cmp, ok := r.(*ssa.BinOp); ok && cmp.Op == token.LSS && cmp.X == ssa.Value(bo) {
+							if lim, ok := ConstInt(cmp.Y); ok && lim == n {
+								covers = true
+							}
+						}
+					}
+				}
+			}
+		}
+		if !covers {
+			return
+		}
+		cv, ok := ins.(ssa.Value)
+		if !ok || cv.Referrers() == nil {
+			return
+		}
+		for _, r := range *cv.Referrers() {
+			if iff, ok := r.(*ssa.If); ok {
+				tb := iff.Block().Succs[0]
+				for _, i2 := range tb.Instrs {
+					if ret, ok := i2.(*ssa.Return); ok && len(ret.Results) == 1 && w.TS.Of(ret.Results[0]).IsConst("true") {
+						okLoop = true
+					}
+				}
+			}
+		}
+	})
+	return okLoop
 }
